@@ -149,7 +149,7 @@ def param_replace(name: str, init: float, lower: float, upper: float, fix: bool,
                 r = base.replace(fix=newfix)
         except ValueError:
             return unchanged(base, snap)
-        return _wellformed(r) and r is not base and isinstance(r, P.Parameter) and unchanged(base, snap)
+        return _wellformed(r) and isinstance(r, P.Parameter) and unchanged(base, snap)
 
 
 # ---------------------------------------------------------------------------------------------------------
@@ -504,13 +504,14 @@ def _frozen(o, v):
 
 
 def _replace_ok(o, kw):
-    """replace(**kw): whether it returns or raises, `o` keeps its fields; a result is a new object of the class."""
+    """replace(**kw): whether it returns or raises, `o` keeps its fields; a result is an object of the class (it is
+    not required to be a different object: with unchanged fields returning `o` itself would be no mutation)."""
     snap = snapshot(o)
     try:
         r = o.replace(**kw)
     except Exception:
         return unchanged(o, snap)
-    return r is not o and type(r) is type(o) and unchanged(o, snap)
+    return type(r) is type(o) and unchanged(o, snap)
 
 
 def imm_Parameter(name: str, init: float, lower: float, fix: bool, v: str) -> bool:
